@@ -211,7 +211,7 @@ func dominatesAllReturns(fn *ssa.Function, in ssa.Instruction) bool {
 func init() {
 	register(&PropSpec{
 		ID:          "C14",
-		Explanation: "Decides where truncation is applied and with which bound: (a) the ingest filter rejects points before clock.Now()-RetentionPeriod, testing the point's own timestamp, before anything is stored; (b) every flush truncates each column at the table's truncateBefore() with a zero 'until' and drops a key only when nothing survives; (c) the truncating (non-raw) flush recurs every k <= 10 flushes independent of sorting; (d) the default query window and the range check derive from the clock and the retention period (C07.b). Added clause: Sequence.Merge discards the older operand as a whole only when its newest period (Until()) is expired.",
+		Explanation: "Decides where truncation is applied and with which bound: (a) the ingest filter rejects points before clock.Now()-RetentionPeriod, testing the point's own timestamp, before anything is stored; (b) every flush truncates each column at the table's truncateBefore() with a zero 'until' and drops a key only when nothing survives; (c) the truncating (non-raw) flush recurs every k <= 10 flushes independent of sorting; (d) the default query window and the range check derive from the clock and the retention period (C07.b). Added clause: Sequence.Merge discards the older operand as a whole only when its newest period (Until()) is expired. Further clause: nobody assigns TableOpts.RetentionPeriod.",
 		NotDecided:  []string{"the off-by-one-period arithmetic at the moving boundary (values)", "Sequence.Truncate's own period arithmetic"},
 		Assumptions: []string{"vtime.Clock.Now is the database clock"},
 		Rules: []func(*Ctx){func(c *Ctx) {
